@@ -23,7 +23,7 @@ pub struct FTier {
 
 impl FTier {
     pub fn quick() -> FTier {
-        FTier { thorough: false, exhaustive_cap: 700, ref_budget: 8_000, sample_k: 64, full_cross: true }
+        FTier { thorough: false, exhaustive_cap: 700, ref_budget: 5_000, sample_k: 40, full_cross: true }
     }
     pub fn thorough() -> FTier {
         FTier { thorough: true, exhaustive_cap: 6_000, ref_budget: 60_000, sample_k: 256, full_cross: true }
@@ -89,6 +89,8 @@ pub fn groups(tier: &FTier) -> Vec<InstSpec> {
         DimMode { dynamic: true, n: 2 },
         DimMode { dynamic: true, n: 1 },
         DimMode { dynamic: true, n: 3 },
+        DimMode { dynamic: false, n: 4 },
+        DimMode { dynamic: true, n: 5 },
     ];
     let fields = [Field::Real, Field::Complex];
     let params = param_grid(tier.thorough);
@@ -98,7 +100,8 @@ pub fn groups(tier: &FTier) -> Vec<InstSpec> {
         for problem in PROBLEMS {
             for (pi, p) in params.iter().enumerate() {
                 if tier.thorough || tier.full_cross {
-                    let dims: &[DimMode] = if tier.thorough { &dims_all } else { &dims_all[..4] };
+                    // quick: four dimension modes everywhere, all eight for two of the parameter sets
+                    let dims: &[DimMode] = if tier.thorough || pi == 0 || pi == 4 { &dims_all } else { &dims_all[..4] };
                     for &dim in dims {
                         for field in fields {
                             out.push(mk(kind, dim, field, problem, *p, idx));
@@ -248,7 +251,7 @@ fn choose_ks(tier: &FTier, r: &InstSummary, n: u64, truncated: bool, rng: &mut S
         return ((1..=n + 1).collect(), true);
     }
     let mut ks: Vec<u64> = Vec::new();
-    let edge = if tier.thorough { 64 } else { 24 };
+    let edge = if tier.thorough { 64 } else { 16 };
     ks.extend(1..=edge.min(n));
     ks.extend((n.saturating_sub(edge) + 1)..=(if truncated { n } else { n + 1 }));
     // first and last call of a seeded sample of polls
